@@ -68,13 +68,13 @@ class C03(Scenario):
                    "that reads it (either neighbour bin is legitimate there)", "string categories contain no None in "
                    "vector mode (np.unique cannot order None and str)"]
     expected_faults = ["batch_split", "weight_form"]
-    expected_probes = ["row_on_edge", "row_nonfinite", "zero_weight_row", "empty_batch", "fast_path_unit_weights"]
+    expected_probes = ["row_on_edge", "row_nonfinite", "zero_weight_row", "empty_batch", "fast_path_unit_weights", "template_used_before"]
 
     def generate(self, rng, tier, profile):
         big = tier == "thorough"
         box = profile.split("-")[0]
         regime = "awkward" if profile.endswith("awkward") else "dyadic"
-        opts = specmod.merge_opts(depth=5 if big else 4, max_nodes=40 if big else 20, regime=regime)
+        opts = specmod.merge_opts(depth=5 if big else 4, max_nodes=40 if big else 20, regime=regime, count_transform=0.06)
         t = rng.fork("tree")
         sp = specmod.gen_spec(t, opts)
         k = 0
@@ -94,14 +94,18 @@ class C03(Scenario):
         if wform == "scalar":
             weights = kn.pick([0.5, 2.0, 1.0, 0.25, 3, 0.0])
         elif wform == "array":
-            weights = [kn.pick(specmod.POS_WEIGHTS + [0.0, 0.0]) for _ in recs]
+            # beyond the statement's "non-negative weight array": entries <= 0 or NaN are ignored row-wise and must be
+            # ignored alike by the vectorised path ("nan" is the JSON spelling; float("nan") reads it back)
+            weights = [specmod.enc_float(kn.pick(specmod.ODD_WEIGHTS)) if kn.chance(0.04) else kn.pick(specmod.POS_WEIGHTS + [0.0, 0.0]) for _ in recs]
         else:
             weights = "one"
         s = rng.fork("schedule")
         nb = s.randint(1, 5)
         cuts = sorted(s.randint(0, n) for _ in range(nb - 1))
         return {"spec": sp, "records": [specmod.enc_record(r) for r in recs], "weights": weights, "box": box,
-                "steps": [{"op": "batch", "upto": c} for c in cuts] + [{"op": "batch", "upto": n}], "regime": regime}
+                "steps": [{"op": "batch", "upto": c} for c in cuts] + [{"op": "batch", "upto": n}], "regime": regime,
+                # the value templates of the sparse containers were used as aggregators themselves before (both trees alike)
+                "used_templates": kn.chance(0.15)}
 
     def run(self, case, w, R):
         sp = case["spec"]
@@ -124,6 +128,15 @@ class C03(Scenario):
         row, vec = row.value, vec.value
         if not hasattr(vec.fill, "numpy"):
             return
+        if case.get("used_templates") and n:
+            from .pool import _walk_objs
+
+            for tree in (row, vec):
+                for node, _, _ in list(_walk_objs(tree)):
+                    if type(node).__name__ in ("SparselyBin", "Categorize") or getattr(node, "name", "") in ("SparselyBin", "Categorize"):
+                        tpl = node.__dict__.get("value")
+                        if tpl is not None and call(tpl.fill, w.records[0], 1.0).ok:
+                            w.bump("probe_template_used_before")
         w.put(1, row)
         w.put(2, vec)
         crit = specmod.critical_values(sp, case.get("regime", "dyadic"))
@@ -166,7 +179,7 @@ class C03(Scenario):
                 wa0 = wa.copy()
                 o = call(vec.fill.numpy, b, wa)
                 w.bump("fault_weight_form")
-                if o.ok and not np.array_equal(wa, wa0):
+                if o.ok and wa.tobytes() != wa0.tobytes():
                     raise self.violation(sp["p"], "fillnumpy", "input-mutated:weights", "fill.numpy modified the caller's weight array", si)
             else:
                 o = call(vec.fill.numpy, b, float(weights))
